@@ -708,4 +708,163 @@ Qed.
 
 End MM.
 
+
+(* ------------------------------------------------------------------ *)
+(* overlap, contraction norms and the column-scale law                  *)
+(* ------------------------------------------------------------------ *)
+Definition ov_kern (sa sb : shell F) : F -> F -> comp -> comp -> F :=
+  mm_kern 0 0 0 (omax [(0, 0, 0)%nat]) sa sb (0, 0, 0)%nat.
+
+Lemma overlap_block_kernel sa sb : overlap_block K sa sb = kblock (ov_kern sa sb) sa sb.
+Proof. unfold overlap_block. rewrite mm_block_kernel. reflexivity. Qed.
+
+(* self-overlap of function (m, c) of a shell: what assign_norm_cont reads *)
+Definition selfov (s : shell F) (m c : nat) : F := nth4' m c m c (overlap_block K s s).
+
+Lemma norm_cont_form s :
+  norm_cont K s = mk (nseg s) (fun m => mk (ncomp s) (fun c => fapx K (1 / fsqrt K (selfov s m c)))).
+Proof. reflexivity. Qed.
+
+Lemma selfov_scale_col s m0 k m c : m < nseg s -> c < ncomp s ->
+  selfov (scale_col s m0 k) m c = colfac m0 k m * colfac m0 k m * selfov s m c.
+Proof.
+  intros Hm Hc. unfold selfov. rewrite !overlap_block_kernel, !kblock_form.
+  rewrite !nth4_mk4 by (rewrite ?nseg_scale_col; assumption).
+  change (ov_kern (scale_col s m0 k) (scale_col s m0 k)) with (ov_kern s s).
+  apply kentry_scale_col.
+Qed.
+
+Definition ncget (n : list (list F)) (m c : nat) : F := nth c (nth m n []) 0.
+
+(* 5b. the contraction norm of a scaled column: divided by |k| (here [ka], any number with
+       sqrt(k^2 x) = ka sqrt x on the self-overlaps of that column) *)
+Theorem norm_cont_scale_col s m0 k ka :
+  (forall x, fapx K x = x) -> ka <> 0 ->
+  (m0 < nseg s -> forall c, c < ncomp s -> fsqrt K (k * k * selfov s m0 c) = ka * fsqrt K (selfov s m0 c)) ->
+  (m0 < nseg s -> forall c, c < ncomp s -> fsqrt K (selfov s m0 c) <> 0) ->
+  norm_cont K (scale_col s m0 k)
+  = mk (nseg s) (fun m => mk (ncomp s) (fun c => colfac m0 (1 / ka) m * ncget (norm_cont K s) m c)).
+Proof.
+  intros Hapx Hka Hsq Hnz. rewrite !norm_cont_form, nseg_scale_col.
+  change (ncomp (scale_col s m0 k)) with (ncomp s).
+  apply mk_ext. intros m Hm. apply mk_ext. intros c Hc.
+  unfold ncget. rewrite nth_mk by exact Hm. rewrite nth_mk by exact Hc. rewrite !Hapx.
+  rewrite selfov_scale_col by assumption. unfold colfac.
+  destruct (Nat.eqb_spec m m0) as [->|Hne].
+  - rewrite (Hsq Hm c Hc). field. split; [apply (Hnz Hm c Hc)|exact Hka].
+  - replace (1 * 1 * selfov s m c) with (selfov s m c) by ring. rewrite !(Fdiv_def Kf). ring.
+Qed.
+
+(* one-sided versions of 5a *)
+Lemma kentry_scale_col_a g sa sb m0 k ma ia mb ib :
+  kentry g (scale_col sa m0 k) sb ma ia mb ib = colfac m0 k ma * kentry g sa sb ma ia mb ib.
+Proof.
+  unfold kentry, dsum, scale_col. rewrite !prims_set_coeffs.
+  change (s_l (set_coeffs ?s ?C)) with (s_l s). change (cnth (set_coeffs ?s ?C) ?i) with (cnth s i).
+  change (s_exps (set_coeffs ?s ?C)) with (s_exps s).
+  unfold ssum at 1 3.
+  rewrite <- fsum_map_scale. apply fsum_map_ext. intros q. rewrite ssum_scale_col. fold (prims sa). ring.
+Qed.
+
+Lemma kentry_scale_col_b g sa sb m0 k ma ia mb ib :
+  kentry g sa (scale_col sb m0 k) ma ia mb ib = colfac m0 k mb * kentry g sa sb ma ia mb ib.
+Proof.
+  unfold kentry, dsum, scale_col. rewrite !prims_set_coeffs.
+  change (s_l (set_coeffs ?s ?C)) with (s_l s). change (cnth (set_coeffs ?s ?C) ?i) with (cnth s i).
+  change (s_exps (set_coeffs ?s ?C)) with (s_exps s).
+  apply ssum_scale_col.
+Qed.
+
+(* ---- normalised blocks: step 1 of the assembly (block *= norm_cont_a x norm_cont_b) ---- *)
+Lemma combine_mk {A B} n (f : nat -> A) (g : nat -> B) : combine (mk n f) (mk n g) = mk n (fun i => (f i, g i)).
+Proof. unfold mk. rewrite combine_map_same. reflexivity. Qed.
+
+Lemma map_mk' {A B} (h : A -> B) n f : map h (mk n f) = mk n (fun i => h (f i)).
+Proof. unfold mk. now rewrite map_map. Qed.
+
+Lemma normalise_mk4 M1 L1 M2 L2 (N1 N2 : nat -> nat -> F) f :
+  normalise K (fmul K) (mk M1 (fun m => mk L1 (N1 m))) (mk M2 (fun m => mk L2 (N2 m))) (mk4 M1 L1 M2 L2 f)
+  = mk4 M1 L1 M2 L2 (fun ma ia mb ib => (N1 ma ia * N2 mb ib) * f ma ia mb ib).
+Proof.
+  unfold normalise, mk4. rewrite combine_mk, map_mk'. apply mk_ext. intros ma _.
+  rewrite combine_mk, map_mk'. apply mk_ext. intros ia _.
+  rewrite combine_mk, map_mk'. apply mk_ext. intros mb _.
+  rewrite combine_mk, map_mk'. reflexivity.
+Qed.
+
+Definition nblock (g : F -> F -> comp -> comp -> F) (sa sb : shell F) : list (list (list (list F))) :=
+  normalise K (fmul K) (norm_cont K sa) (norm_cont K sb) (kblock g sa sb).
+Definition nentry (g : F -> F -> comp -> comp -> F) (sa sb : shell F) (ma ia mb ib : nat) : F :=
+  (ncget (norm_cont K sa) ma ia * ncget (norm_cont K sb) mb ib) * kentry g sa sb ma ia mb ib.
+
+Lemma ncget_norm_cont s m c : m < nseg s -> c < ncomp s ->
+  ncget (norm_cont K s) m c = fapx K (1 / fsqrt K (selfov s m c)).
+Proof. intros Hm Hc. unfold ncget. rewrite norm_cont_form. rewrite nth_mk by exact Hm. now rewrite nth_mk by exact Hc. Qed.
+
+Lemma nblock_form g sa sb : nblock g sa sb = mk4 (nseg sa) (ncomp sa) (nseg sb) (ncomp sb) (nentry g sa sb).
+Proof.
+  unfold nblock. rewrite kblock_form, !norm_cont_form, normalise_mk4. apply mk4_ext.
+  intros ma ia mb ib Hma Hia Hmb Hib. unfold nentry.
+  now rewrite !ncget_norm_cont by assumption.
+Qed.
+
+(* 5. column scale on the normalised block: with [kaa], [kba] standing for |ka|, |kb| *)
+Definition scale_hyps (s : shell F) (m0 : nat) (k kabs : F) : Prop :=
+  kabs <> 0 /\
+  (m0 < nseg s -> forall c, c < ncomp s -> fsqrt K (k * k * selfov s m0 c) = kabs * fsqrt K (selfov s m0 c)) /\
+  (m0 < nseg s -> forall c, c < ncomp s -> fsqrt K (selfov s m0 c) <> 0).
+
+Lemma ncget_scale_col s m0 k kabs m c : (forall x, fapx K x = x) -> scale_hyps s m0 k kabs ->
+  m < nseg s -> c < ncomp s ->
+  ncget (norm_cont K (scale_col s m0 k)) m c = colfac m0 (1 / kabs) m * ncget (norm_cont K s) m c.
+Proof.
+  intros Hapx [H1 [H2 H3]] Hm Hc. rewrite (norm_cont_scale_col s m0 k kabs Hapx H1 H2 H3).
+  unfold ncget at 1. rewrite nth_mk by exact Hm. now rewrite nth_mk by exact Hc.
+Qed.
+
+Lemma colfac_mul m0 a b m : colfac m0 a m * colfac m0 b m = colfac m0 (a * b) m.
+Proof. unfold colfac. destruct (Nat.eqb m m0); ring. Qed.
+
+Theorem nblock_scale_col g sa sb m0a ka kaa m0b kb kba :
+  (forall x, fapx K x = x) -> scale_hyps sa m0a ka kaa -> scale_hyps sb m0b kb kba ->
+  nblock g (scale_col sa m0a ka) (scale_col sb m0b kb)
+  = mk4 (nseg sa) (ncomp sa) (nseg sb) (ncomp sb)
+      (fun ma ia mb ib => colfac m0a (ka / kaa) ma * colfac m0b (kb / kba) mb * nth4' ma ia mb ib (nblock g sa sb)).
+Proof.
+  intros Hapx Ha Hb. rewrite !nblock_form, !nseg_scale_col.
+  change (ncomp (scale_col sa m0a ka)) with (ncomp sa). change (ncomp (scale_col sb m0b kb)) with (ncomp sb).
+  apply mk4_ext. intros ma ia mb ib Hma Hia Hmb Hib. rewrite nth4_mk4 by assumption.
+  unfold nentry. rewrite kentry_scale_col.
+  rewrite (ncget_scale_col sa m0a ka kaa ma ia Hapx Ha Hma Hia).
+  rewrite (ncget_scale_col sb m0b kb kba mb ib Hapx Hb Hmb Hib).
+  destruct Ha as [Ha _]. destruct Hb as [Hb _].
+  unfold colfac. destruct (Nat.eqb ma m0a), (Nat.eqb mb m0b); field; auto.
+Qed.
+
+(* k > 0 (|k| = k): the normalised block does not change *)
+Theorem nblock_scale_col_pos g sa sb m0a ka m0b kb :
+  (forall x, fapx K x = x) -> scale_hyps sa m0a ka ka -> scale_hyps sb m0b kb kb ->
+  nblock g (scale_col sa m0a ka) (scale_col sb m0b kb) = nblock g sa sb.
+Proof.
+  intros Hapx Ha Hb. rewrite (nblock_scale_col g sa sb m0a ka ka m0b kb kb Hapx Ha Hb).
+  rewrite (nblock_form g sa sb). apply mk4_ext. intros ma ia mb ib Hma Hia Hmb Hib.
+  rewrite nth4_mk4 by assumption. destruct Ha as [Ha _]. destruct Hb as [Hb _].
+  unfold colfac. destruct (Nat.eqb ma m0a), (Nat.eqb mb m0b); field; auto.
+Qed.
+
+(* k < 0 (|k| = -k) on shell a only: function m0 of shell a changes sign, nothing else does *)
+Theorem nblock_scale_col_neg_a g sa sb m0 k :
+  (forall x, fapx K x = x) -> scale_hyps sa m0 k (- k) ->
+  nblock g (scale_col sa m0 k) sb
+  = mk4 (nseg sa) (ncomp sa) (nseg sb) (ncomp sb)
+      (fun ma ia mb ib => colfac m0 (- (1)) ma * nth4' ma ia mb ib (nblock g sa sb)).
+Proof.
+  intros Hapx Ha. rewrite !nblock_form, !nseg_scale_col.
+  change (ncomp (scale_col sa m0 k)) with (ncomp sa).
+  apply mk4_ext. intros ma ia mb ib Hma Hia Hmb Hib. rewrite nth4_mk4 by assumption.
+  unfold nentry. rewrite kentry_scale_col_a.
+  rewrite (ncget_scale_col sa m0 k (- k) ma ia Hapx Ha Hma Hia).
+  destruct Ha as [Ha _]. unfold colfac. destruct (Nat.eqb ma m0); field; auto.
+Qed.
+
 End P.
